@@ -26,7 +26,7 @@ def obligations():
                          call='  { struct EH hh; hh.idx_ = h; TopologyKernel__reorder_incident_halffaces(&m, hh); }',
                          post='\n'.join(post), op='reorder')
         obs.append(Ob(id='C09.' + n, props=['C09', 'C01', 'C12'], tu='kernel', tier='B', roots=[TK + '::reorder_incident_halffaces'],
-                      harness=mh, includes=['wf.h', 'view.h'], copies=[TK], defines=d, inline_vec=INLINE, unwind=6, covers=2, timeout=900, quick=True,
+                      harness=mh, includes=['wf.h', 'view.h'], copies=[TK], defines=d, inline_vec=INLINE, unwind=6, covers=2, timeout=900, quick_for=['C09', 'C01'],
                       bounds=dict(vertices=2, edges=2, faces=2, cells=2, face_valence=2, cell_valence=2, incident_list=2),
                       note='real reorder_incident_halffaces against its caller-side contract; bottom-up kinds enabled: %s' % (on or 'none')))
     return obs
